@@ -3,6 +3,7 @@ import BddProofs.Total3
 import BddProofs.Cube
 import BddProofs.Clause
 import BddProofs.Init
+import BddProofs.Bits
 /-! # C15 — constructors build the function they name
 
 All of them return canonical handles: the results are `Valid` in a `Good` state, where handle
@@ -68,6 +69,19 @@ example : ∃ s' r, mkVar s4 1 = .ok (s', r) ∧ Good s' ∧ Valid s'.nodes r (f
   obtain ⟨s', r, h⟩ := h
   exact ⟨s', r, h, (mkVar_spec s4_good h).1, (mkVar_spec s4_good h).2.2⟩
 
+/-- literals are `i32` in the code and unbounded integers in the model.  For every literal other than 0
+and `i32::MIN` the two readings coincide: the variable `cube` / `clause` hand to `mk_node`
+(`-lit as u32` for a negative literal, `lit as u32` otherwise) is the absolute value of the literal, and
+the branch taken (`lit < 0`) is its sign.  `i32::MIN` is a real exception (`Bits.lit_min_witness`;
+DESIGN §10) -/
+theorem C15_literal_words (lit : BitVec 32) (h0 : lit.toNat ≠ 0) (hmin : lit.toNat ≠ 2147483648) :
+    (Bits.litVar lit).toNat = lit.toInt.natAbs ∧ (!Bits.litIsNeg lit) = decide (0 < lit.toInt) :=
+  Bits.lit_word_is_int lit h0 hmin
+
+/-- non-vacuity, at the largest variable a literal can name -/
+example : (Bits.litVar (BitVec.ofInt 32 (-2147483647))).toNat = 2147483647 ∧
+    Bits.litIsNeg (BitVec.ofInt 32 (-2147483647)) = true := by decide
+
 end P
 #print axioms P.C15_mk_var
 #print axioms P.C15_mk_node
@@ -77,3 +91,4 @@ end P
 #print axioms P.C15_empty
 #print axioms P.C15_cube_terminates
 #print axioms P.C15_clause_terminates
+#print axioms P.C15_literal_words
